@@ -124,7 +124,7 @@ func raceNodeMain(env Env, args []string) int {
 			}
 		}
 	}
-	_ = os.WriteFile(*out, JSONBytes(ro), 0o644)
+	_ = os.WriteFile(*out, JSONBytes(ro), 0644)
 	return 0
 }
 
@@ -202,7 +202,7 @@ func runRaceNode(ri raceInput, timeout time.Duration) (ro raceOutput, reports []
 	}
 	defer os.RemoveAll(dir)
 	in, out := filepath.Join(dir, "in.json"), filepath.Join(dir, "out.json")
-	_ = os.WriteFile(in, JSONBytes(ri), 0o644)
+	_ = os.WriteFile(in, JSONBytes(ri), 0644)
 	cmd := exec.Command(os.Getenv("DST_NODE_RACE"), "racenode", "-in", in, "-out", out)
 	cmd.Env = append(os.Environ(), "GORACE=exitcode=0 halt_on_error=0", fmt.Sprintf("GOMAXPROCS=%d", runtime.NumCPU()))
 	var eb bytes.Buffer
